@@ -645,9 +645,17 @@ impl ExTracker {
                     }
                     prev_id = Some(id);
                     // match with one submitted order of this batch, field by field
-                    let mut hit: Option<usize> = by_key.get_mut(&order_key(o)).and_then(|v| v.pop());
+                    let mut hit: Option<usize> = None;
+                    if let Some(v) = by_key.get_mut(&order_key(o)) {
+                        while let Some(i) = v.pop() {
+                            if !matched.contains(&i) {
+                                hit = Some(i);
+                                break;
+                            }
+                        }
+                    }
                     if hit.is_none() && self.json {
-                        // floats crossed JSON text: fall back to a tolerant scan
+                        // floats crossed JSON text (not bit-exact): fall back to a tolerant scan, one to one
                         hit = buffered.iter().copied().find(|i| !matched.contains(i) && self.spec_matches(&self.recs[*i].spec, o));
                     }
                     if let Some(i) = hit {
